@@ -322,6 +322,9 @@ func contractPhase(cr *checkResult, w *symex.World, update bool) {
 	}
 	scan := w.AssumeScan()
 	cr.extra["assume_scan"] = scan
+	ax, tr := w.AssumeNames()
+	cr.extra["assumed_axioms"] = ax
+	cr.extra["trusted_contracts"] = tr
 }
 
 func clauseHasProp(c *symex.Contract, p string) bool {
